@@ -187,3 +187,69 @@ def t_range(a, b):
 
 def t_mul(b, n):
     return (b * n, n * b, b"\x00" * n)
+
+
+# ---- objects: attribute stores, receivers that are attribute paths, `with` (single-owner objects, as the flow semantics has them) ----
+class Box:
+    def __init__(self):
+        self.items = []
+        self.n = 0
+        self.tag = b""
+
+
+class W:
+    """a writer in the style of ASN1Writer: a pushed child hands its data to its parent when the `with` block ends"""
+
+    def __init__(self, parent=None):
+        self.data = bytearray()
+        self.parent = parent
+
+    def push(self):
+        return W(self)
+
+    def __enter__(self):
+        return self
+
+    def __exit__(self, *a):
+        self.parent.data.extend(b"[" + bytes(self.data) + b"]")
+
+    def put(self, b):
+        self.data.extend(b)
+
+    def get(self):
+        return bytes(self.data)
+
+
+def o_attr(xs, k):
+    b = Box()
+    b.n = k
+    b.n += len(xs)
+    b.tag = b"t" * k
+    b.items.append(k)          # receiver is an attribute path: needs the write-back of PyAstMut
+    b.items.extend(xs)
+    for x in xs:
+        if x == 3:
+            b.items.append(-x)
+    return (b.n, b.tag, b.items, len(b.items))
+
+
+def o_with(a, b):
+    w = W()
+    w.put(a)
+    with w.push() as c:
+        c.put(b)
+        with c.push() as d:
+            d.put(a)
+            d.put(a)
+        c.put(b"!")
+    w.put(b)
+    return w.get()
+
+
+def o_with_loop(parts):
+    w = W()
+    for p in parts:
+        with w.push() as c:
+            if p:
+                c.put(p)
+    return w.get()
